@@ -51,7 +51,7 @@ seq_t dtw_warping_paths{{ suffix }}{{ suffix2 }}(seq_t *wps,
     {%- else %}
     // DTWPruned
     idx_t sc = 0;
-    idx_t ec = 0;
+    idx_t ec = settings->psi_2b;  // PrunedDTW: a path can still start in the relaxed part of the first row
     idx_t ec_next;
     bool smaller_found;
     {%- endif %}
@@ -141,6 +141,10 @@ seq_t dtw_warping_paths{{ suffix }}{{ suffix2 }}(seq_t *wps,
         }
         {%- else %}
         // PrunedDTW
+        if (ri <= settings->psi_1b) {
+            // A path can still start in the relaxed part of the first column
+            sc = 0;
+        }
         if (sc <= min_ci) {} else {
             for (; ci<sc; ci++) {
                 wps[ri_width + wpsi] = {{infinity}};
@@ -215,6 +219,10 @@ seq_t dtw_warping_paths{{ suffix }}{{ suffix2 }}(seq_t *wps,
         }
         {%- else %}
         // PrunedDTW
+        if (ri <= settings->psi_1b) {
+            // A path can still start in the relaxed part of the first column
+            sc = 0;
+        }
         if (sc <= min_ci) {} else {
             for (; ci<sc; ci++) {
                 wps[ri_width + wpsi] = {{infinity}};
@@ -289,6 +297,10 @@ seq_t dtw_warping_paths{{ suffix }}{{ suffix2 }}(seq_t *wps,
         }
         {%- else %}
         // PrunedDTW
+        if (ri <= settings->psi_1b) {
+            // A path can still start in the relaxed part of the first column
+            sc = 0;
+        }
         if (sc <= min_ci) {} else {
             for (; ci<sc; ci++) {
                 wps[ri_width + wpsi] = {{infinity}};
@@ -373,6 +385,10 @@ seq_t dtw_warping_paths{{ suffix }}{{ suffix2 }}(seq_t *wps,
         }
         {%- else %}
         // PrunedDTW
+        if (ri <= settings->psi_1b) {
+            // A path can still start in the relaxed part of the first column
+            sc = 0;
+        }
         if (sc <= min_ci) {} else {
             for (; ci<sc; ci++) {
                 wps[ri_width + wpsi] = {{infinity}};
